@@ -256,7 +256,7 @@ class Interp:
         while e is not None:
             if name in e.v:
                 v = e.v[name]
-                if isinstance(v, tuple) and len(v) == 2 and v[0] == "repomodule":
+                if isinstance(v, tuple) and len(v) == 2 and isinstance(v[0], str) and v[0] == "repomodule":
                     return NativeObj("repomodule", v[1])
                 return v
             if e.lazy and name in e.lazy:
